@@ -30,11 +30,11 @@ Example C04_refuted_reply_exceeds_offer :
   1 < vol r.
 Proof. vm_compute. reflexivity. Qed.
 
-(* C02 / C04: a push whose volume is below FLOAT_ACCURACY is answered with
-   "nothing left" although nothing was recorded or delivered: its pollutant
-   load disappears. *)
+(* C02 / C04 (repaired in /repo, see known_findings.json "fixed"): a push whose volume is below
+   FLOAT_ACCURACY used to be answered "nothing left" although nothing was recorded; it is now handed
+   back whole - state unchanged, reply = offer. *)
 Definition w_tiny : vqip := mkV (1#1000000000000) [1#1] [].
-Example C02_refuted_tiny_push_dropped :
+Example tiny_push_is_handed_back :
   let q := q_init (10#1) 1 [] in let s := (w_idle, w_rejecting) in
-  q_send_push _ nbport q s w_tiny false 0 = (q, s, vzero) /\ get (adds w_tiny) 0 == 1.
-Proof. vm_compute. split; reflexivity. Qed.
+  q_send_push _ nbport q s w_tiny false 0 = (q, s, w_tiny).
+Proof. vm_compute. reflexivity. Qed.
